@@ -2,7 +2,7 @@
    See Dispatch/BacktestProofs.v.  The model makes the batch structure explicit: a whole batch of events is popped
    before any of its handlers runs (fix 7793261) and the sources are only looked at again when all are done. *)
 From Coq Require Import ZArith List.
-From Basana Require Import Dispatch.Backtest Dispatch.BacktestProofs Dispatch.MuxProofs.
+From Basana Require Import Dispatch.Backtest Dispatch.BacktestProofs Dispatch.MuxProofs Dispatch.RunProofs Dispatch.OnceProofs.
 Import ListNotations.
 Open Scope Z_scope.
 
@@ -45,6 +45,27 @@ Theorem C12_never_back_in_time : forall beh_ev beh_job s oracle s' o' dt drain l
   d_last s' = Some l -> l <= dt.
 Proof. exact top_step_not_back. Qed.
 Print Assumptions C12_never_back_in_time.
+
+(* whole run, for every source content, job list, behaviour of handlers and jobs, tie-break oracle and number of steps:
+   the clocks observed by successive executions (event deliveries and jobs) never decrease, and nothing runs with a
+   clock earlier than its own time *)
+Theorem C12_clock_never_decreases_over_the_whole_run : forall beh_ev beh_job srcs jobs oracle fuel,
+  let s := fst (run beh_ev beh_job fuel (init_d srcs jobs) oracle) in
+  sorted_le (map clk (d_trace s)) /\ forall it, In it (d_trace s) -> due it <= clk it.
+Proof. exact run_clock_monotone. Qed.
+Print Assumptions C12_clock_never_decreases_over_the_whole_run.
+
+(* whole run: once run() has returned, every event that ever entered a source (initially, or pushed by a handler or a
+   job) has been delivered exactly once; jobs are neither lost nor duplicated *)
+Theorem C12_every_event_delivered_exactly_once : forall beh_ev beh_job srcs jobs oracle fuel,
+  let s := fst (run beh_ev beh_job fuel (init_d srcs jobs) oracle) in
+  (d_pc s = PDone ->
+   forall p, cnt p (delivered (d_trace s)) =
+             (cnt p (concat srcs) + cnt p (pushed beh_ev beh_job (length srcs) (d_trace s)))%nat) /\
+  (forall q, (cnt q (d_sched s) + cnt q (executed (d_trace s)) =
+              cnt q jobs + cnt q (scheduled beh_ev beh_job (d_trace s)))%nat).
+Proof. exact run_delivers_exactly_once. Qed.
+Print Assumptions C12_every_event_delivered_exactly_once.
 
 Example C12_d12_witness :
   (* the witness of the repaired defect D12: job at 13 pushes an event dated 13; job at 16; next event at 20 *)
